@@ -61,7 +61,7 @@ def registration_rule(F, R, rule):
     # ... and the driver writes the rings where the device was told they are: the layout's pointer accessors select the same
     # (region, offset) as its device-address accessors, and the constructor takes each ring pointer from the accessor of its area
     # ... and the areas lie inside the memory that was allocated for them (L2: sizes / offsets / page counts for every queue size)
-    P = RuleProxy(R, {'L3': rule, 'L2': rule}, only=lambda inst: 'queue_set' in inst or inst.startswith('accessors:') or ':pointer:' in inst or inst.endswith(':areas'))
+    P = RuleProxy(R, {'L3': rule, 'L2': rule}, only=lambda inst: 'queue_set' in inst or inst.startswith('accessors:') or ':pointer:' in inst or inst.endswith(':areas') or inst.endswith(':value'))
     roles = l2_alloc(F, P, M, lay)
     l3_registration(F, P, M, lay, roles)
 
